@@ -411,13 +411,17 @@ PROPS["C18"] = dict(
               "SqlVerif.Props.C18.dt_yield", "SqlVerif.Props.C18.print_injective", "SqlVerif.Props.C18.print_short",
               "SqlVerif.Props.C18.square_after_even_closers_differs", "SqlVerif.Props.C18.struct_then_comma_rejected",
               "SqlVerif.Props.C18.three_closers_rejected_where_gt_is_operator",
-              "SqlVerif.Props.C18.custom_modifier_splits", "SqlVerif.Props.C18.custom_empty_modifier_vanishes",
+              "SqlVerif.Props.C18.string_modifier_stored_as_spelling", "SqlVerif.Props.C18.custom_string_modifier_roundtrips",
+              "SqlVerif.Props.C18.string_modifier_spelling_lexes_back_partial",
+              "SqlVerif.Props.C18.custom_string_modifier_roundtrips_lexer_partial",
+              "SqlVerif.Props.C18.custom_string_modifier_backslash_quote_breaks",
+              "SqlVerif.Props.C18.handbuilt_modifier_splits", "SqlVerif.Props.C18.handbuilt_empty_modifier_vanishes",
               "SqlVerif.Props.C18.datetime64_zone_quote_breaks", "SqlVerif.Props.C18.fullStatement_false"],
     corr=["dtparse", "dtprint"],
     unique_output={"dtparse": False, "dtprint": False},
     oracle=["C18"],
-    level_text="Proved in Lean on a hand-written executable model of data-type printing and parsing (DT mirrors enum DataType constructor by constructor; printDT = the token sequence of Display for DataType after the lexer has merged adjacent `>` into `>>` - or into ONE custom operator for three or more where `>` is an operator character, i.e. PostgreSQL; parseDT mirrors parse_data_type / parse_data_type_helper branch by branch with the recursion guard, the MatchedTrailingBracket bookkeeping of expect_closing_angle_bracket, parse_struct_type_def, parse_struct_field_def, the DuckDB STRUCT(..)/UNION(..), ClickHouse Map/Tuple/Nested/Nullable/LowCardinality/Array(..)/FixedString/DateTime64 forms, ENUM/SET label lists, custom names with modifiers, the [] / [n] suffix loop and every dialect_of! test), for EVERY configuration record (the 13 dialects are instances), every environment, every fuel >= size t and recursion depth >= nesting depth, and UNBOUNDED nesting: (dt_roundtrip) parseDT (printDT t ++ rest) = ok (t, rest) for every Producible t and every follower that cannot extend the type, with the three contexts of the property as corollaries (alone; before `)` = CAST and last column; before `,` = column followed by a column); (closing_brackets_balance) the lexer regroups every maximal run of closing brackets on its total length, whatever the nesting, and (helper_roundtrip) the helper returns the value, the trailing-bracket flag `odd number of own closers and at least one outer closer` and exactly the unconsumed closers; (dt_yield, print_injective) the consumed prefix is the print of the result and different types print differently. Producible is a decidable predicate: which constructor exists under which dialect, numbers within u64, non-empty label lists, a custom name that is no type keyword of the dialect, modifiers lexing to one word/number, unnamed struct/tuple fields not starting with two words, and three exclusions that are DEFECTS of the code, each with a kernel-checked witness: a [] suffix after an even number of closing angle brackets (ARRAY<ARRAY<INT>>[] comes back as ARRAY<ARRAY<INT>[]>), an angle-bracket struct closed by the second half of `>>` in front of a comma (`unmatched > in STRUCT definition`), three or more closers under PostgreSQL (`>>>` is one operator token); further witnesses: raw custom modifiers split or vanish, a quote in a DateTime64 zone ends the literal (through the tokenizer model); the unrestricted statement is proved FALSE. Tie: stream dtparse (real parse_data_type on real token vectors vs parseDT: 73 type keywords x 100 parameter/field tails, custom names, the nesting grid to depth 2/3 over 18 wrappers incl. `> >` spellings, truncations / deletions / replacements, the recursion-limit ladder, random nestings; x 13 dialects; values as S-expressions, error messages incl. the found token) and stream dtprint (AST-first: DataType values built directly, every constructor x parameter combination x nesting, real to_string() lexed by the real tokenizer vs printDT). Direct oracle on the real code: every value the real parser produces on the spelling corpus or reproduces from its own print, per dialect, stand-alone / as first of two columns / inside CAST.",
-    level_note="Trusted: Lean kernel (axioms propext, Classical.choice, Quot.sound); the hand-written model (Model/DataType.lean), validated by the two differentials on generated inputs only; dialect_of! modelled as a test on the built-in dialect's name; Gen/Keywords.lean, Gen/Reserved.lean, Gen/Dialects.lean as dumped from the running crate (keyword classes, RESERVED_FOR_COLUMN_ALIAS, delimiter / custom-operator characters). Partial by design: the model is at TOKEN level - identifiers, ENUM/SET labels and the DateTime64 zone are tokens, so `printing this payload yields text that lexes back to this token` is C06's theorem for payloads satisfying its predicates and is outside C18's theorem (dtprint answers UNSUPPORTED for payloads with quotes/backslashes/non-ASCII: about 3% of quick lines); raw custom modifiers are printed through a parameter (their real tokens travel with each request). A Nested column is name + type only (collation/options: UNSUPPORTED, the full ColumnDef grammar belongs to C01). When a DuckDB STRUCT( body fails AND `)` is missing the real code reports the `)` error instead of the body's: the model answers UNSUPPORTED there (0.1% of dtparse lines). `<>` (an empty element inside angle brackets, only with DataType::Unspecified, never producible) is outside retok. The unrestricted property is FALSE on the current tree; every failing (constructor, context, kind) found by the oracle is a known finding, anything else a violation.",
+    level_text="Proved in Lean on a hand-written executable model of data-type printing and parsing (DT mirrors enum DataType constructor by constructor; printDT = the token sequence of Display for DataType after the lexer has merged adjacent `>` into `>>` - or into ONE custom operator for three or more where `>` is an operator character, i.e. PostgreSQL; parseDT mirrors parse_data_type / parse_data_type_helper branch by branch with the recursion guard, the MatchedTrailingBracket bookkeeping of expect_closing_angle_bracket, parse_struct_type_def, parse_struct_field_def, the DuckDB STRUCT(..)/UNION(..), ClickHouse Map/Tuple/Nested/Nullable/LowCardinality/Array(..)/FixedString/DateTime64 forms, ENUM/SET label lists, custom names with modifiers, the [] / [n] suffix loop and every dialect_of! test), for EVERY configuration record (the 13 dialects are instances), every environment, every fuel >= size t and recursion depth >= nesting depth, and UNBOUNDED nesting: (dt_roundtrip) parseDT (printDT t ++ rest) = ok (t, rest) for every Producible t and every follower that cannot extend the type, with the three contexts of the property as corollaries (alone; before `)` = CAST and last column; before `,` = column followed by a column); (closing_brackets_balance) the lexer regroups every maximal run of closing brackets on its total length, whatever the nesting, and (helper_roundtrip) the helper returns the value, the trailing-bracket flag `odd number of own closers and at least one outer closer` and exactly the unconsumed closers; (dt_yield, print_injective) the consumed prefix is the print of the result and different types print differently. Producible is a decidable predicate: which constructor exists under which dialect, numbers within u64, non-empty label lists, a custom name that is no type keyword of the dialect, modifiers lexing to one word, number or single-quoted string token that the parser stores back as the modifier itself (a string literal is stored in its SQL spelling, quotes included and embedded quotes doubled, since the fix 085e5ea), unnamed struct/tuple fields not starting with two words, and three exclusions that are DEFECTS of the code, each with a kernel-checked witness: a [] suffix after an even number of closing angle brackets (ARRAY<ARRAY<INT>>[] comes back as ARRAY<ARRAY<INT>[]>), an angle-bracket struct closed by the second half of `>>` in front of a comma (`unmatched > in STRUCT definition`), three or more closers under PostgreSQL (`>>>` is one operator token); custom modifiers: (string_modifier_stored_as_spelling) `foo('..')` is stored as the spelling for every payload, (custom_string_modifier_roundtrips) a string modifier whose spelling lexes to one string token of the same spelling comes back - `foo('a b')`, `foo('')`, and the doubled-quote quirk of the quote-doubling printer (`foo('a''''b')`) included - for every configuration, name and follower, and (string_modifier_spelling_lexes_back_partial, custom_string_modifier_roundtrips_lexer_partial) that lexing condition is discharged through the tokenizer model of C09 for every payload satisfying C06's CleanQ under any dialect row; further witnesses: a string modifier with a backslash in front of a quote (`foo('a\\''b')` without backslash escapes) is stored as `'a\\'b'`, which does not lex (residual defect of the quote-doubling printer), hand-built modifier texts that are no single token split or vanish (Display prints modifiers verbatim; such values are not Producible and the parser never returns them), a quote in a DateTime64 zone ends the literal (through the tokenizer model); the unrestricted statement is proved FALSE. Tie: stream dtparse (real parse_data_type on real token vectors vs parseDT: 73 type keywords x 100 parameter/field tails, custom names, the nesting grid to depth 2/3 over 18 wrappers incl. `> >` spellings, truncations / deletions / replacements, the recursion-limit ladder, random nestings; x 13 dialects; values as S-expressions, error messages incl. the found token) and stream dtprint (AST-first: DataType values built directly, every constructor x parameter combination x nesting, real to_string() lexed by the real tokenizer vs printDT). Direct oracle on the real code: every value the real parser produces on the spelling corpus or reproduces from its own print, per dialect, stand-alone / as first of two columns / inside CAST.",
+    level_note="Trusted: Lean kernel (axioms propext, Classical.choice, Quot.sound); the hand-written model (Model/DataType.lean), validated by the two differentials on generated inputs only; dialect_of! modelled as a test on the built-in dialect's name; Gen/Keywords.lean, Gen/Reserved.lean, Gen/Dialects.lean as dumped from the running crate (keyword classes, RESERVED_FOR_COLUMN_ALIAS, delimiter / custom-operator characters). Partial by design: the model is at TOKEN level - identifiers, ENUM/SET labels and the DateTime64 zone are tokens, so `printing this payload yields text that lexes back to this token` is C06's theorem for payloads satisfying its predicates and is outside C18's theorem (dtprint answers UNSUPPORTED for payloads with quotes/backslashes/non-ASCII: about 3% of quick lines); custom modifiers are SQL text printed verbatim, i.e. through a parameter (the real tokens of each modifier text travel with each request); that the spelling of a string modifier lexes back to its one token is proved through the tokenizer model for CleanQ payloads and checked by dtprint for the rest. A Nested column is name + type only (collation/options: UNSUPPORTED, the full ColumnDef grammar belongs to C01). When a DuckDB STRUCT( body fails AND `)` is missing the real code reports the `)` error instead of the body's: the model answers UNSUPPORTED there (0.1% of dtparse lines). `<>` (an empty element inside angle brackets, only with DataType::Unspecified, never producible) is outside retok. The unrestricted property is FALSE on the current tree; every failing (constructor, context, kind) found by the oracle is a known finding, anything else a violation.",
     technique="Lean 4 proof (compositional real-token stream `emit`, bridge lemma to the lexer by mutual structural recursion, per-arm parser lemmas, strong induction on the size of the type with the `[]` suffix list as an accumulator) + kernel-decided negation witnesses + parse differential on real token vectors + AST-first print differential + direct three-context round-trip oracle on the real code",
     trusted_base=["Display coverage inventory (translator/display.rs): the set of AST fields that no Display body mentions is compared with the committed expectation; a field that stops being printed is an open obligation", "Display coverage inventory (translator/display.rs): the set of AST fields that no Display body mentions is compared with the committed expectation; a field that stops being printed is an open obligation", "Model/DataType.lean mirrors src/ast/data_type.rs (Display) and src/parser/mod.rs parse_data_type* / parse_struct_* / parse_union_type_def / parse_click_house_* / parse_optional_* / parse_string_values / parse_object_name / parse_identifier by hand",
                   "dialect_of! is modelled as a test on the built-in dialect's name; Parser::new options (trailing_commas = supports_trailing_commas)",
@@ -449,7 +453,8 @@ PROPS["C13"]["level_text"] += " For the statement fragment (Model/Dml.lean, stre
 PROPS["C05"]["lean"].append("SqlVerif.Props.C05Dml")
 PROPS["C05"]["namespaces"].append("SqlVerif.Props.C05Dml")
 PROPS["C05"]["required"] += ["SqlVerif.Props.C05Dml.stmt_content_preserved_partial", "SqlVerif.Props.C05Dml.stmt_content_preserved_stmt",
-                             "SqlVerif.Props.C05Dml.content_changed_type_number"]
+                             "SqlVerif.Props.C05Dml.content_changed_type_number",
+                             "SqlVerif.Props.C05Dml.option_keyword_swallowed", "SqlVerif.Props.C05Dml.update_from_swallowed"]
 PROPS["C05"]["corr"].append("dml")
 PROPS["C05"]["unique_output"]["dml"] = False
 PROPS["C05"]["level_text"] += " The same sequence-level content theorem is proved for a core of the DML/DDL statements (Model/Dml.lean + DmlPrint.lean: INSERT incl. VALUES / DEFAULT VALUES / RETURNING, UPDATE, DELETE, CREATE TABLE with column options, DROP TABLE; Display text tied to to_string() by stream dml, 13 dialects, both option values): stmt_content_preserved_partial, for printable statements (printable expressions and queries; column types that are keyword-only types written with keyword tokens). An excluded type shape that changes content on the current code is kept as a kernel-checked witness: numbers inside a type are re-rendered (VARCHAR(010) prints VARCHAR(10))."
